@@ -131,6 +131,9 @@ func (x *Exec) evalBuiltin(st *State, e *ast.CallExpr, name string) []*Value {
 				x.assume(st, x.b.Le(n, x.b.Num(new(big.Int).Lsh(big.NewInt(1), 48), is), true))
 				return []*Value{scalarV(intT, n)}
 			}
+			if name == "cap" {
+				return []*Value{scalarV(intT, x.b.App("chan.cap", is, v.scalar()))}
+			}
 			x.note("len-of-chan")
 			n := x.b.Fresh("chanlen", is)
 			x.assume(st, x.b.Le(x.b.Num(big.NewInt(0), is), n, true))
@@ -247,10 +250,14 @@ func (x *Exec) evalMake(st *State, e *ast.CallExpr) *Value {
 		x.mapInitEmpty(st, m, u)
 		return m
 	case *types.Chan:
+		// the capacity of a channel is fixed when it is made: chan.cap is a function of the (fresh) reference
+		capT := x.b.Num(big.NewInt(0), x.idxSort())
 		if len(e.Args) > 1 {
-			x.eval(st, e.Args[1])
+			capT = x.coerce(st, x.eval(st, e.Args[1]), types.Typ[types.Int]).scalar()
 		}
-		return scalarV(t, x.allocRef(st))
+		r := x.allocRef(st)
+		x.assume(st, x.b.Eq(x.b.App("chan.cap", x.idxSort(), r), capT))
+		return scalarV(t, r)
 	}
 	x.fail("unsupported make(%v)", t)
 	return x.zeroValue(t)
